@@ -93,6 +93,8 @@ def _windows(exe, work, args, tag, R):
     if n == 0:
         return 0, 0
     probes = sum(len(json.loads(l).get("probes", [])) for l in open(tp))
+    excl = max([json.loads(l).get("excluded_deeper_entry_reused", 0) for l in open(tp)] or [0])
+    R.coverage["alpha_beta_probes_excluded_deeper_entry_reused"] = R.coverage.get("alpha_beta_probes_excluded_deeper_entry_reused", 0) + excl
     matched, results, rej = vlib.validate_trace("WindowTrace", "WindowTrace.cfg", tp, lambda e: True, timeout=7200, max_rejections=4)
     for r in results:
         R.add_tlc(r)
